@@ -331,8 +331,8 @@ func c13Case(c *Ctx) error {
 						bal = b.Amount
 					}
 				}
-				if bal.Sign() > 0 {
-					bad.Amount = bal.String() // the whole spendable balance
+				if bal.Sign() > 0 && rng.Intn(3) == 0 {
+					bad.Amount = bal.String() // the whole spendable balance (else one unit, so that the neighbour still finds funds)
 				}
 			}
 			badRaw, _ := json.Marshal(bad)
